@@ -43,6 +43,13 @@ def run_property(prop: str, repo: Path, tier: str, seed: int, write_evidence: bo
                 for fl in summ["failures"]:
                     ctx.undecided("SELFVAL", None, None, f"checker self-validation failed on variant {fl['id']}: "
                                   f"{fl['status']} {fl['why']}", construct=fl["id"], key=fl["id"])
+                # the load-time normal form is claimed exact: differential test of the normaliser on its own corpus of small functions
+                import subprocess
+                nf = subprocess.run([sys.executable, str(VERIF / "selfval" / "normal_form_tests.py")], capture_output=True, text=True, timeout=300)
+                extra["selfval"]["normal_form_differential_test"] = nf.stdout.strip().splitlines()[-1] if nf.stdout.strip() else "no output"
+                if nf.returncode != 0:
+                    ctx.undecided("SELFVAL", None, None, "the normal form changed the behaviour of a test function: " + nf.stdout.strip()[:400],
+                                  construct="normal_form_tests", key="normal-form")
                 print(f"  selfval: {extra['selfval']['mutants_caught']}/{extra['selfval']['mutants']} mutants reported, "
                       f"{extra['selfval']['benign_silent']}/{extra['selfval']['benign']} benign rewrites silent, "
                       f"{extra['selfval']['skipped']} skipped")
